@@ -212,6 +212,10 @@ func getOctoSQLValue(t octosql.Type, value *fastjson.Value) (out octosql.Value, 
 	case octosql.TypeIDList:
 		if value.Type() == fastjson.TypeArray {
 			arr, _ := value.Array()
+			if t.List.Element == nil && len(arr) > 0 {
+				// The type of the empty list (only empty lists were seen when inferring the schema).
+				return octosql.ZeroValue, false
+			}
 			values := make([]octosql.Value, len(arr))
 
 			outOk := true
